@@ -319,7 +319,7 @@ package account
 //@   modifies ao.suicided, ao.onDirty, heap("map[common.Address]struct{}")
 
 //@ func AccountDB.Suicide
-//@   property C04 C06
+//@   property C04 C06 C12
 //@   requires adb != nil && common.Big0 != nil && big(common.Big0) == 0
 //@   ensures [journal] result ==> len(adb.transitions) == old(len(adb.transitions)) + 1 && istype(adb.transitions[len(adb.transitions)-1], suicideChange)
 //@   ensures [prev]    result ==> unbox(adb.transitions[len(adb.transitions)-1], suicideChange).prev == old(ptr(accountObject, registered(ref(adb), addr)).suicided) || old(registered(ref(adb), addr)) == 0
@@ -333,7 +333,7 @@ package account
 //@   modifies adb.transitions, elems(adb.transitions), ghost(acct), ghost(bal), ghost(supply), ghost(stor), heap("storage/account.accountObject"), heap("map[common.Address]struct{}")
 
 //@ func suicideChange.undo
-//@   property C04
+//@   property C04 C12
 //@   requires s != nil && ch.account != nil && ch.prevbalance != nil
 //@   ensures [balance] old(registered(ref(s), *ch.account)) != 0 && !old(ptr(accountObject, registered(ref(s), *ch.account)).deleted) ==> balOf(*ch.account) == big(ch.prevbalance)
 //@   ensures [flag]    old(registered(ref(s), *ch.account)) != 0 && !old(ptr(accountObject, registered(ref(s), *ch.account)).deleted) ==> ptr(accountObject, old(registered(ref(s), *ch.account))).suicided == ch.prev
